@@ -11,13 +11,16 @@
    invariance of the mirror's answer under lattice shifts of atoms, re-numbering of atoms and change of
    lattice basis (discrete level), invariance of every image distance under rigid motions (metric level);
    voltage algebra.
-   Not proved, kept visible as a Definition in DimensionalityProofs.v and tested by vm_compute on every
-   generated pair:  C09_invariance_full_statement (the integer-rank half of dim_spec does not depend on the
-   presentation); supercells are covered by tests only. *)
+   The INTEGER rank: the fraction-free elimination of dim_spec computes the determinantal rank for every list of integer
+   vectors (RankElim.v); the cycle voltages generate exactly the lattice of self-translations of the infinite network, so the
+   integer rank does not depend on the spanning tree, on the order or orientation of the pairs (VoltageLattice.v); the whole
+   specification dim_spec (None / GF(2) rank / integer rank) is invariant under lattice shifts of atoms, re-numbering of atoms
+   and change of lattice basis.
+   Supercells are covered by tests only. *)
 From Coq Require Import List Arith ZArith Bool.
 Import ListNotations.
 From MV Require Import Geometry.RankDet Base.Graph Base.Cover Base.ZV3 Geometry.Dimensionality Geometry.DimensionalityProofs
-  Geometry.DimensionalityInvariance.
+  Geometry.DimensionalityInvariance Geometry.RankElim Geometry.VoltageLattice.
 Local Open Scope nat_scope.
 
 (* get_dimensionality's control flow returns None exactly when two atoms of the cell contents are not
@@ -237,7 +240,8 @@ Print Assumptions C09_mask_additive.
 
 (* the INTEGER rank of the cycle-voltage lattice, defined by determinants (Geometry/RankDet.v): it depends only on the set of
    voltages, is unchanged by every invertible change of lattice basis, and is the same for any two generating lists of one
-   lattice.  (That the elimination [rankZ] of dim_spec computes it is evaluated by vm_compute on every case -- rankZ_consistent.) *)
+   lattice.  (Named _partial when they were statements about rank_det only; C09_elimination_computes_rank below makes them
+   statements about the number dim_spec computes.) *)
 Theorem C09_integer_rank_order_independent_partial :
   forall vs vs', (forall x, In x vs <-> In x vs') -> rank_det vs = rank_det vs'.
 Proof. exact rank_det_same_set. Qed.
@@ -261,3 +265,43 @@ Example C09_rank_mismatch_exists :
   /\ dim_spec 1 (true, true, false) [(0, 0, (1, 1, 0)%Z); (0, 0, (1, -1, 0)%Z)] = Some (1, 2).
 Proof. exact ex_checkerboard. Qed.
 Print Assumptions C09_rank_mismatch_exists.
+
+(* the fraction-free elimination of the specification computes the determinantal rank -- for EVERY list of integer vectors *)
+Theorem C09_elimination_computes_rank : forall vs, rankZ vs = rank_det vs.
+Proof. exact rankZ_eq_rank_det. Qed.
+Print Assumptions C09_elimination_computes_rank.
+(* ... so the run-time comparison of the correspondence can never fail on a faithful model *)
+Theorem C09_rankZ_consistent_always : forall n p E, rankZ_consistent n p E = true.
+Proof. exact rankZ_consistent_always. Qed.
+Print Assumptions C09_rankZ_consistent_always.
+
+(* the cycle voltages of a connected well-formed network generate exactly the lattice of the translations that map the
+   network through atom 0 onto itself: independent of the spanning tree and of how the pairs are listed *)
+Theorem C09_voltages_generate_self_translations :
+  forall n p E, wf_E n p E = true -> 0 < n -> all_placed (potentials n E) = true ->
+  forall t, span (voltages (potentials n E) E) t <-> self_translation E t.
+Proof. exact voltage_lattice. Qed.
+Print Assumptions C09_voltages_generate_self_translations.
+Theorem C09_integer_rank_is_lattice_rank :
+  forall n p E, wf_E n p E = true -> 0 < n -> all_placed (potentials n E) = true ->
+  forall gens, (forall t, span gens t <-> self_translation E t) -> rankZ (voltages (potentials n E) E) = rank_det gens.
+Proof. exact rankZ_is_lattice_rank. Qed.
+Print Assumptions C09_integer_rank_is_lattice_rank.
+
+(* the whole specification -- None, GF(2) rank, integer rank -- under the three re-presentations of one network *)
+Theorem C09_spec_shift_invariance :
+  forall n p E s, wf_E n p E = true -> 0 < n -> (forall i, okoff p (s i) = true) -> dim_spec n p (shiftE s E) = dim_spec n p E.
+Proof. exact dim_spec_shift_invariant. Qed.
+Print Assumptions C09_spec_shift_invariance.
+Theorem C09_spec_permutation_invariance :
+  forall n p E pi pi', (forall i, i < n -> pi i < n) -> (forall i, i < n -> pi' i < n) ->
+  (forall i, i < n -> pi' (pi i) = i) -> (forall i, i < n -> pi (pi' i) = i) ->
+  wf_E n p E = true -> 0 < n -> dim_spec n p (permE pi E) = dim_spec n p E.
+Proof. exact dim_spec_perm_invariant. Qed.
+Print Assumptions C09_spec_permutation_invariance.
+Theorem C09_spec_basis_change_invariance :
+  forall n p E W W', (forall o, lin W' (lin W o) = o) -> (forall o, lin W (lin W' o) = o) ->
+  (forall o, okoff p o = true -> okoff p (lin W o) = true) -> (forall o, okoff p o = true -> okoff p (lin W' o) = true) ->
+  wf_E n p E = true -> 0 < n -> dim_spec n p (basisE W E) = dim_spec n p E.
+Proof. exact dim_spec_basis_invariant. Qed.
+Print Assumptions C09_spec_basis_change_invariance.
